@@ -245,7 +245,12 @@ func ext4ManyInodesScenario(oracle string, depth int) *fatScen {
 
 func ext4AllScens(oracle string, quick bool, depth int) []*fatScen {
 	var out []*fatScen
-	out = append(out, ext4GroupSpanScenario(oracle, 3), ext4ManyInodesScenario(oracle, 4))
+	if oracle == "e2fsck" && quick {
+		// (every transition costs an e2fsck and a debugfs run)
+		out = append(out, ext4GroupSpanScenario(oracle, 2), ext4ManyInodesScenario(oracle, 3))
+	} else {
+		out = append(out, ext4GroupSpanScenario(oracle, 3), ext4ManyInodesScenario(oracle, 4))
+	}
 	for i, c := range ext4Configs(quick) {
 		out = append(out, ext4Scenarios(c, oracle, depth, quick)...)
 		if i == 0 || !quick {
@@ -418,7 +423,11 @@ func ext4MatrixScens(quick bool) []*fatScen {
 					}
 					c := fatCfg{Type: 4, Size: g.size, Start: 4096, E4SectorsPerBlock: g.spb, E4NoCsum: nocsum, E4Journal: journal, E4Feat: f}
 					name := "matrix[" + f + "]"
-					out = append(out, &fatScen{Name: name, Cfg: c, Letters: letters, Depth: 2, Oracle: "e2fsck"})
+					d := 2
+					if quick && g.size != 1<<20 && (fi+int(g.spb))%3 != 0 {
+						d = 1 // quick tier: pairs of operations on the smallest geometry and on every third of the others
+					}
+					out = append(out, &fatScen{Name: name, Cfg: c, Letters: letters, Depth: d, Oracle: "e2fsck"})
 				}
 			}
 		}
@@ -456,8 +465,13 @@ func C05(r *ev.Run) {
 	if !r.Quick() {
 		depth = 3
 	}
-	scens := ext4AllScens("e2fsck", r.Quick(), depth)
-	scens = append(scens, ext4MatrixScens(r.Quick())...)
+	// the Create matrix and the geometry sweeps (many cheap scenarios) run first, the deeper explorations after them, so that
+	// a time budget can only ever cut into the latter
+	scens := ext4MatrixScens(r.Quick())
+	for i, j := 0, len(scens)-1; i < j; i, j = i+1, j-1 {
+		scens[i], scens[j] = scens[j], scens[i]
+	}
+	scens = append(scens, ext4AllScens("e2fsck", r.Quick(), depth)...)
 	t := runFatScens(r, scens, false)
 	t.write(r)
 	e2memo.Lock()
